@@ -1,4 +1,5 @@
 import PsycheModel.Compat
+import PsycheModel.Assign
 /-! Line driver for C11's compatibility model.  Input: the harness's answer `"<n> | <type> ; <type> … | <bits>"` (types in prefix
 form); output: the model's bits for every ordered pair and the four flag combinations, in the harness's order. -/
 namespace Driver.CompatDrv
@@ -46,7 +47,7 @@ partial def readTy : List String → Option (Ty × List String)
     else none
 
 def handle (line : String) : String :=
-  match line.trimAscii.toString.splitOn " | " with
+  match (line.trimAscii.toString.splitOn " | ").take 3 with
   | [_, tys, _] =>
     let parsed := (tys.splitOn " ; ").map fun s => readTy ((s.splitOn " ").filter (· ≠ ""))
     if parsed.any (fun p => match p with | some (_, []) => false | _ => true) then "BAD"
@@ -54,6 +55,9 @@ def handle (line : String) : String :=
       let ts := parsed.filterMap fun p => p.map (·.1)
       String.ofList (ts.flatMap fun t1 => ts.flatMap fun t2 =>
         [(false, false), (false, true), (true, false), (true, true)].map fun (va, iq) => if compat t1 t2 va iq then '1' else '0')
+      ++ " | " ++
+      String.ofList (ts.flatMap fun t1 => ts.flatMap fun t2 =>
+        [false, true].map fun n => if PsycheModel.Assign.assignableFrom t1 t2 n then '1' else '0')
   | _ => "BAD"
 
 end Driver.CompatDrv
